@@ -118,6 +118,7 @@ func newSlowPathProcessor`, Expect: "O1-single-owner"},
 }
 
 func runC14(c *Ctx) {
+	c14ReceiversJoinedFirst(c)
 	r := &routerOwnRules
 	n := 0
 	for _, q := range []string{
